@@ -240,7 +240,7 @@ NOTES = {
     'C05-halfchain-hash-key': 'round 7, first run: MISSED (operator ids were small non-negative integers). Every eleventh chain case of r_C05 relabels operator ids to negative and very large integers, among them -1 and -2, whose hash values coincide in CPython',
     'C11-bincount-sector-offsets': 'round 8, first run: CHECKER-BROKEN (the changed code allocates tables proportional to the range of the labels; cases ran into the per-case limit and the stand-in was killed by the check at the same moment as its own budget ended). The check now gives the runner a grace period after its budget, workers have an address-space limit (MemoryError instead of swap): reported as `terminates` failures',
     'C11-sortedness-by-diff': 'round 8, first run: MISSED. r_C11 / r_C12 use the three labels -c, 0, +c in cyclic order with c = 5e18 (int64) or 2e9 (int32 arrays): every descent overflows the difference of neighbouring labels',
-    'C08-product-operator-right-block': 'round 8, first run: MISSED (every operator family had bond dimensions > 1 somewhere). New family prodh in r_C08 / r_C09 / r_C10: product operators with complex Hermitian site matrices',
+    'C08-product-operator-right-block': 'round 8, first run: MISSED (every operator family had bond dimensions > 1 somewhere). New family prodh in r_C08 / r_C09: product operators with complex Hermitian site matrices (not in the DMRG stand-in: alternating local minimisation has genuine local minima for product operators, found by a multi-seed sweep of the unchanged tree)',
     'C03-sparse-matrix-noise-pruning': 'round 8, first run: MISSED. r_C03 converts operators with a badly balanced gauge (1e-25 / 1e+25) and of overall magnitude 1e-30, compared relative to the norm of the reference',
     'C14-lanczos-norm-before-reorth': 'round 8, first run: MISSED (the normalisation proof was lost, no failing input). r_C14 has start vectors in a two-dimensional invariant subspace up to 1e-15 .. 1e-12 of a Hermitian matrix of norm 1e4',
     'C02-automaton-start-node-qnum': 'round 8, first run: MISSED by the C02 check (the C17 check has the clause terminal_qnums). r_C02 converts an automaton with a charged start terminal into an MPO',
